@@ -882,7 +882,7 @@ def run_case_safe(spec):
 def base_cfg(r, op, types, rules=None, prob=None):
     return {'op': op, 'types': types,
             'prob': r.choice([0, 0.5, 1, 1]) if prob is None else prob,
-            'attempts': r.choice([1, 2, 3, 5, 100]),
+            'attempts': r.choice([1, 2, 3, 5, 8]),
             'rules': rules or r.choice(['default', 'default', 'default', 'accept_all', 'root_acyclic', 'one_root', 'custom']),
             'max_depth': r.choice([2, 3, 4, 6]), 'max_arity': r.choice([2, 3, 4]),
             'variable': r.random() < 0.5, 'strength': r.choice(['weak', 'mean', 'strong'])}
@@ -907,6 +907,8 @@ def gen_specs(ctx):
         for t in MUT_TYPES:
             for prob in ([1, 0.5] if thorough else [1]):
                 cfg = base_cfg(r, 'mutation', [t], rules='default', prob=prob)
+                if r.random() < 0.3:
+                    cfg['attempts'] = 100          # the default of GPAlgorithmParameters
                 specs.append(plain_spec([g], [0], cfg, sd(), 'exhaustive', bare=r.random() < 0.5))
     # --- exhaustive stream: ordered pairs of valid DAGs <= 3 nodes x every built-in crossover type
     pairs = list(itertools.product(small, small))
@@ -915,6 +917,8 @@ def gen_specs(ctx):
     for g1, g2 in pairs:
         for t in CROSS_TYPES:
             cfg = base_cfg(r, 'crossover', [t], rules='default', prob=1)
+            if r.random() < 0.3:
+                cfg['attempts'] = 100
             specs.append(plain_spec([g1, g2], [0, 1], cfg, sd(), 'exhaustive'))
     for _ in range(ctx.budget(0, 7000)):           # pairs involving 4-node DAGs (sampled)
         g1, g2 = r.choice(four), r.choice(four + small)
